@@ -974,9 +974,29 @@ def run(ck, ctx):
         try:
             W = "sum(sum(Y) * T / sum(sum(Y) * T) * (c - a)**2)"
             res = []
-            for pol, ref in ((True, f"degrees(a + sqrt({W} * n / (n - 1)))"), (False, f"degrees(a + sqrt({W}))")):
+            def truth_at(cond, k):
+                """value of the switch for a count of k contributing steps, or None"""
+                import operator as _op
+                neg = False
+                while cond.op == "UnaryOp" and cond.attr == "Not":
+                    cond, neg = cond.args[0], not neg
+                if cond.op != "Compare" or len(cond.args) != 2:
+                    return None
+                f = {"Gt": _op.gt, "GtE": _op.ge, "Lt": _op.lt, "LtE": _op.le, "Eq": _op.eq, "NotEq": _op.ne}.get(cond.attr)
+                a_, b_ = (_strip_cast(y) for y in cond.args)
+                if f is None:
+                    return None
+                if g.vn(a_) == g.vn(cnt[0]) and b_.op == "Const" and isinstance(b_.attr, (int, float)):
+                    return f(k, b_.attr) != neg
+                if g.vn(b_) == g.vn(cnt[0]) and a_.op == "Const" and isinstance(a_.attr, (int, float)):
+                    return f(a_.attr, k) != neg
+                return None
+            for many, ref in ((True, f"degrees(a + sqrt({W} * n / (n - 1)))"), (False, f"degrees(a + sqrt({W}))")):
                 P.memo.clear()
-                P.assume = {g.vn(x.args[0]): pol for x in phis}
+                # the value of each switch when more than one step contributes (a count of 2) / when not (a count of 1),
+                # however the test is spelled (n > 1, n <= 1 with the branches the other way round, ...)
+                P.assume = {g.vn(x.args[0]): (truth_at(x.args[0], 2 if many else 1) if truth_at(x.args[0], 2) is not None
+                                              else many) for x in phis}
                 res.append(P.equal(_bare(P.of(a_main)), _ref_with_pi(P, ref, env)))
             P.assume = {}
             def more_than_one(cond):
@@ -996,7 +1016,13 @@ def run(ck, ctx):
                 if g.vn(b_) == g.vn(cnt[0]) and a_.op == "Const" and isinstance(a_.attr, (int, float)):
                     return all((f(a_.attr, k) != neg) == (k > 1) for k in range(5))
                 return None
-            sw = [more_than_one(x.args[0]) for x in phis]
+            def switches_at_two(cond):
+                """the switch changes exactly between one and two contributing steps (decided on the counts 0 .. 4)"""
+                vals = [truth_at(cond, k) for k in range(5)]
+                if any(v is None for v in vals):
+                    return None
+                return vals[0] == vals[1] and vals[2] == vals[3] == vals[4] and vals[1] != vals[2]
+            sw = [switches_at_two(x.args[0]) for x in phis]
             ok2 = (all(res) and len(phis) >= 1) and (None if any(x is None for x in sw) else all(sw))
             detail2 = f"arms: {res}, {len(phis)} switch(es) on the number of contributing steps: {sw}"
         except Exception as ex:           # noqa: BLE001
